@@ -438,6 +438,8 @@ fn drive_checksum_ops(sink: &mut Sink, rng: &mut Rng, n: usize) {
     use purl::qualifiers::well_known::Checksum;
     let mut ck: Checksum<'static> = Checksum::default();
     let mut since = 0;
+    // for the evidence: how many different iteration orders were observed for the same key set
+    let mut orders: std::collections::BTreeMap<Vec<String>, std::collections::BTreeSet<Vec<String>>> = Default::default();
     sink.emit(json!({"ev": "reset"}));
     for _ in 0..n {
         if since >= 40 {
@@ -466,6 +468,11 @@ fn drive_checksum_ops(sink: &mut Sink, rng: &mut Rng, n: usize) {
             },
         };
         let order: Vec<String> = ck.algorithms().map(|s| s.to_owned()).collect();
+        if order.len() >= 2 {
+            let mut key = order.clone();
+            key.sort();
+            orders.entry(key).or_default().insert(order.clone());
+        }
         let res = match catch_unwind(AssertUnwindSafe(|| replay::apply_ckop(&mut ck, &op))) {
             Ok(v) => v,
             Err(_) => json!({"panic": true}),
@@ -476,6 +483,13 @@ fn drive_checksum_ops(sink: &mut Sink, rng: &mut Rng, n: usize) {
         sink.emit(json!({"ev": "ck", "op": op, "res": res,
                          "post": post.iter().map(|(a, h)| json!([cps(a), cps(h)])).collect::<Vec<_>>(),
                          "order": order.iter().map(|s| cps(s)).collect::<Vec<_>>(), "lc": lc_table(&lc_src)}));
+    }
+    let multi = orders.values().filter(|v| v.len() > 1).count();
+    for _ in 0..multi {
+        sink.ctx.count("key_sets_seen_in_more_than_one_iteration_order");
+    }
+    for _ in 0..orders.len() {
+        sink.ctx.count("key_sets_with_two_or_more_algorithms");
     }
 }
 
